@@ -615,3 +615,32 @@ Definition import_ft (claim : bytes) (o : import_opts) : res (bytes * entry * li
           map_claim_commands p (io_peer_addr o) (io_tag o) (io_extra o))
   | _ => Err
   end.
+
+(* ---- the session cache: SessionCache.Store overwrites the entry filed under the id ---- *)
+Definition cache := list entry.
+Fixpoint cache_lookup (id : bytes) (c : cache) : option entry :=
+  match c with
+  | [] => None
+  | e :: r => if bytes_eqb (e_id e) id then Some e else cache_lookup id r
+  end.
+Fixpoint cache_store (e : entry) (c : cache) : cache :=
+  match c with
+  | [] => [e]
+  | x :: r => if bytes_eqb (e_id x) (e_id e) then e :: r else x :: cache_store e r
+  end.
+
+(* ImportClaimSession / ImportFileTransferSession / MintClaimSession acting on a cache that
+   may already hold entries (of any origin): whatever was filed under the id is replaced *)
+Definition import_into (ft : bool) (c : cache) (claim : bytes) (o : import_opts)
+  : cache * res (bytes * entry * list bytes) :=
+  match (if ft then import_ft claim o else import_claim claim o) with
+  | Ok (sid, e, cmds) => (cache_store e c, Ok (sid, e, cmds))
+  | r => (c, r)
+  end.
+Definition mint_into (c : cache) (o : mint_opts) (secret : bytes) (now_ns : Z) : cache * res minted :=
+  match mint o secret now_ns with
+  | Ok m => (cache_store (m_entry m) c, Ok m)
+  | r => (c, r)
+  end.
+Definition import_seq (steps : list (bool * bytes * import_opts)) (c : cache) : cache :=
+  fold_left (fun c st => let '(ft, claim, o) := st in fst (import_into ft c claim o)) steps c.
